@@ -11,7 +11,7 @@
     (append target, payload length) was defined before, and every field of the struct is
     defined at the end (or overwritten by the receiver right after recv: tflush.wait). *)
 From Coq Require Import NArith String List Bool.
-From P9V Require Import Codec.Layout Codec.Frame Codec.Reuse Codec.ReuseProofs Codec.GenCheck gen.CodecGen.
+From P9V Require Import Codec.Layout Codec.Frame Codec.Reuse Codec.ReuseProofs Codec.GenCheckReuse gen.CodecGen.
 Import ListNotations.
 Open Scope N_scope.
 Open Scope list_scope.
@@ -81,9 +81,9 @@ Print Assumptions C18_read_data.
 (** hypotheses are satisfiable, and the condition is not vacuous: Twalk's program covers its
     fields; the same program without the reset does not, and then a stale name list shows *)
 Definition twalk_prog : list dstmt :=
-  [DAssign "fid" (KInt 4); DAssign "newFID" (KInt 4); DLen16; DReset "Names"; DLoop "Names" [("Names[]"%string, KStr)]].
+  [DAssign "fid" (KInt 4); DAssign "newFID" (KInt 4); DLen16; DReset "Names"; DLoop "Names" [("Names[]"%string, KStr)] true].
 Definition twalk_prog_noreset : list dstmt :=
-  [DAssign "fid" (KInt 4); DAssign "newFID" (KInt 4); DLen16; DLoop "Names" [("Names[]"%string, KStr)]].
+  [DAssign "fid" (KInt 4); DAssign "newFID" (KInt 4); DLen16; DLoop "Names" [("Names[]"%string, KStr)] true].
 
 Example C18_ex_covers :
   covers2 "" [] [] twalk_prog ["fid"; "newFID"; "Names"]%string = true /\
